@@ -455,10 +455,9 @@ impl BtpInner {
             .session
             .is_ack_due(Instant::now(), self.ack_timeout_secs as _)
         {
-            let len = self.session.prep_tx_data(&[], &mut 0, buf)?;
-            assert!(len > 0);
-
-            return Ok(len);
+            // Nothing goes out if our own send window is exhausted: the ACK
+            // then has to wait until the peer acknowledges some of our segments
+            return self.session.prep_tx_data(&[], &mut 0, buf);
         }
 
         Ok(0)
